@@ -37,6 +37,11 @@ impl PersistentVectorStorage {
             cache: VectorCache::new(DEFAULT_VECTOR_CACHE_CAP),
         }
     }
+
+    /// Current root page of the backing tree (it moves when the root splits).
+    pub fn root(&self) -> crate::pager::PageId {
+        self.btree.root()
+    }
 }
 
 impl VectorStorage<Pager> for PersistentVectorStorage {
@@ -138,6 +143,11 @@ pub struct PersistentGraphStorage {
 impl PersistentGraphStorage {
     pub fn new(btree: BTree) -> Self {
         Self { btree }
+    }
+
+    /// Current root page of the backing tree (it moves when the root splits).
+    pub fn root(&self) -> crate::pager::PageId {
+        self.btree.root()
     }
 }
 
